@@ -27,6 +27,7 @@ RULE = (
     "subset of soft goals is neither all nor none; distinct by canonical case."
 )
 SHARDS = {"quick": 8, "thorough": 16}
+CASE_TIMEOUT_S = 20  # CPU seconds; cases normally take milliseconds (finite, tiny state spaces)
 _CASE_NO = 0
 
 IF_PROF = gen.Profile(
@@ -93,6 +94,30 @@ def cases(draw):
             p["init"] = [e for e in p["init"] if e[0] != fl] + [[fl, ["b", goal[0] == "not"]]]
         elif not p["goals"]:
             p["goals"] = [g.bool_expr({"params": [], "vars": []}, 1)]
+        if not g.b(0.15):
+            # nested calls g(h(x)) are kept rare: they have root causes of their own (known findings) that would
+            # otherwise end most searches early
+            rets = {f_["name"]: f_["ret"] for f_ in p["ifuns"]}
+
+            def flat(x, inside=False):
+                if isinstance(x, dict):
+                    return {k_: flat(v_, inside) for k_, v_ in x.items()}
+                if isinstance(x, list):
+                    if x and x[0] == "ifn":
+                        if inside:
+                            r = rets[x[1]]
+                            if r == "bool":
+                                return ["b", True]
+                            if r[0] == "int":
+                                return ["i", 1]
+                            objs = [o for o, t in p["objects"] if t == r[1]] or [o for o, t in p["objects"] if t in g.subtypes(r[1])]
+                            return ["obj", objs[0]] if objs else x
+                        return x[:2] + [flat(v_, True) for v_ in x[2:]]
+                    return [flat(v_, inside) for v_ in x]
+                return x
+
+            p["actions"] = flat(p["actions"])
+            p["goals"] = flat(p["goals"])
         return {"kind": "if", "problem": finite(p)}
     g = gen.Gen(draw, OS_PROF)
     p = g.problem()
@@ -200,7 +225,11 @@ def check(ctx, case):
                 ctx.cls(f"unsupported:{kind}")
                 raise Abstain("unsupported-kind")
             res = planner.solve(problem)
-    except (Abstain, CaseTimeout):
+    except CaseTimeout:
+        if kind == "if" and nested_ifn(case["problem"]):
+            raise Violation("hang:nested-calls", f"{name}.solve used more than the per-case CPU budget on a problem with nested interpreted-function calls", case)
+        raise
+    except Abstain:
         raise
     except Exception as e:
         import traceback
